@@ -96,6 +96,8 @@ class Flow(Driver):
         self.eval_int_commits = p.get('eval_int_commits', False)
         self.comments = [list(c) for c in p.get('comments', [])]
         self.per_q_ci = p.get('per_q_ci', True)
+        self.approvers = p.get('approvers', [])
+        self.change_requesters = p.get('change_requesters', [])
 
     def enabled(self, w, state):
         evs = []
@@ -123,10 +125,21 @@ class Flow(Driver):
             if self.eval_int_commits:
                 for b in tips:
                     evs.append(['eval_commit', b])
-            for (user, text) in self.comments:
-                if not any(c[0] == k and c[1] == user and c[2] == text
-                           for c in state['comments']):
+            for cm in self.comments:
+                user, text = cm[0], cm[1]
+                limit = cm[2] if len(cm) > 2 else 1
+                if sum(1 for c in state['comments']
+                       if c[0] == k and c[1] == user and
+                       c[2] == text) < limit:
                     evs.append(['comment', k, user, text])
+            for user in self.approvers:
+                if not any(u == user and a for u, a, _ in
+                           pr['participants']):
+                    evs.append(['approve', k, user])
+            for user in self.change_requesters:
+                if not any(u == user and c for u, _, c in
+                           pr['participants']):
+                    evs.append(['request_changes', k, user])
         if self.decline:
             # a declined PR can still be evaluated (cleanup)
             for pr in parent_prs(state, only_open=False):
@@ -185,4 +198,16 @@ class FlowFaults(Flow):
             self, w, snap, ev, dev, ctx)
 
 
-REGISTRY = {'flow': Flow, 'flow_faults': FlowFaults}
+class Repeat(Flow):
+    """FLOW plus, on every job transition, the same evaluation repeated
+    (C10)."""
+    def plan_deviations(self, w, snap, ev, res):
+        from . import faults
+        return faults.c10_plan(self, w, snap, ev, res)
+
+    def run_deviation(self, w, snap, ev, dev, ctx):
+        from . import faults
+        return faults.c10_run(self, w, snap, ev, dev, ctx)
+
+
+REGISTRY = {'flow': Flow, 'flow_faults': FlowFaults, 'repeat': Repeat}
